@@ -44,6 +44,8 @@ func DescribeStep(st *Step) string {
 			s += " (" + st.Tx.Note + ")"
 		}
 		return s
+	case KSim:
+		return "simulate (gas estimation)"
 	case KCommit:
 		if st.Torn != nil {
 			return fmt.Sprintf("commit torn mask=%05b writeerr=%v", st.Torn.Mask, st.Torn.WriteErr)
